@@ -113,6 +113,28 @@ def step (line : String) : String :=
     match parseFilterVal f, parseParmsVal p, parseInflate i, bytesOfHex h with
     | some f, some p, some tab, some d => showRes (streamDecodeRaw (lookupInflate tab) f p d)
     | _, _, _, _ => "bad-op"
+  | ["getfilters", fa, pa] =>
+    -- fa / pa: "-" or `keyhex=<FilterVal spec>` / `keyhex=<ParmsVal spec>` separated by ';'
+    let parseAttrs {α : Type} (s : String) (pv : String → Option α) : Option (List (Bytes × α)) :=
+      if s == "-" then some []
+      else (s.splitOn ";").mapM (fun e =>
+        match e.splitOn "=" with
+        | [k, v] => match bytesOfHex k, pv v with
+          | some k, some v => some (k, v)
+          | _, _ => none
+        | _ => none)
+    match parseAttrs fa parseFilterVal, parseAttrs pa parseParmsVal with
+    | some f, some p =>
+      let showN (o : Option Nat) : String := match o with | some n => toString n | none => "_"
+      let showP (o : Option Parms) : String :=
+        match o with
+        | none => "Z"
+        | some d =>
+          if d.predictor.isNone && d.colors.isNone && d.columns.isNone && d.bpc.isNone then "Z"
+          else "D" ++ showN d.predictor ++ "." ++ showN d.colors ++ "." ++ showN d.columns ++ "." ++ showN d.bpc
+      let r := streamFilters f p
+      if r.isEmpty then "[]" else ",".intercalate (r.map (fun q => hexOrDash q.1 ++ "/" ++ showP q.2))
+    | _, _ => "bad-op"
   | ["lenval", objs, v] =>
     -- objs: "-" or id:i<int> / id:r<id> / id:o separated by commas; v: none | i<int> | r<id> | o
     let parseObj (s : String) : Option LenObj :=
